@@ -436,9 +436,22 @@ fn info_has(log: &str, keys: &[&str], value: &str) -> bool {
     log.lines().any(|l| {
         let ll = l.to_lowercase();
         keys.iter().all(|k| ll.contains(k)) && if num {
-            ll.split(|c: char| !c.is_ascii_digit()).any(|t| t == value)
+            ll.split(|c: char| !c.is_ascii_digit()).any(|t| t == value) && human_figure_ok(&ll, value)
         } else { ll.contains(&value.to_lowercase()) }
     })
+}
+
+/// when the exact byte count is preceded by a rounded figure with a binary unit (`1.5 mib (1572864 bytes)`), that figure
+/// is the byte count in that unit (to the printed precision)
+fn human_figure_ok(ll: &str, value: &str) -> bool {
+    let pat = format!("({} bytes)", value);
+    let Some(p) = ll.find(&pat) else { return true };
+    let before: Vec<&str> = ll[..p].split_whitespace().collect();
+    if before.len() < 2 { return true; }
+    let unit = match before[before.len() - 1] { "kib" => 1024.0, "mib" => 1048576.0, "gib" => 1073741824.0, _ => return true };
+    let Ok(fig) = before[before.len() - 2].parse::<f64>() else { return true };
+    let exact = value.parse::<f64>().unwrap_or(0.0) / unit;
+    (fig - exact).abs() <= 0.051 + exact * 1e-9
 }
 
 // ---------------------------------------------------------------------------------------------
